@@ -191,7 +191,43 @@ def gen_history(rng, idx, base, opts):
         first = False
         cfg = gen_config(rng, tasks, opts)
         faults = gen_faults(rng, tasks, opts)
-        ops.append({"op": "build", "tasks": [dict(t) for t in tasks], "cfg": cfg, "faults": faults})
+        btasks = [dict(t) for t in tasks]
+        bop = {"op": "build", "tasks": btasks, "cfg": cfg, "faults": faults}
+        if rng.random() < opts.get("illformed", 0.0):
+            kind = rng.choice(["dup", "dup_spell", "cycle", "after_cycle", "bad_k", "bad_after", "self"])
+            with_prod = [t for t in btasks if t["prods"]]
+            if kind in ("dup", "dup_spell") and with_prod and len(btasks) > 1:
+                a = rng.choice(with_prod)
+                b = rng.choice([t for t in btasks if t["id"] != a["id"]])
+                p = rng.choice(a["prods"])
+                b["prods"] = b["prods"] + [p]
+                if kind == "dup_spell":
+                    b["spell"] = {str(p): rng.choice(["dot", "updown"])}
+            elif kind == "cycle" and with_prod:
+                a = rng.choice(with_prod)
+                up = closure(declared_upstream(btasks))
+                cands = [t for t in btasks if t["id"] == a["id"] or t["id"] in up[a["id"]]]
+                b = rng.choice(cands)
+                b["deps"] = b["deps"] + [rng.choice(a["prods"])]
+            elif kind == "after_cycle":
+                up = closure(declared_upstream(btasks))
+                pairs = [(t, u) for t in btasks for u in btasks if u["id"] in up[t["id"]]]
+                if pairs:
+                    t, u = rng.choice(pairs)        # t depends on u; make u run after t
+                    u["after_fn"] = []
+                    u["after_expr"] = f"t{t['id']}_"
+            elif kind == "bad_k":
+                cfg[rng.choice(["expression", "marker_expression"])] = rng.choice(["slow and", "(gpu", "a $ b", "not"])
+                bop["bad_expr"] = True
+            elif kind == "bad_after":
+                t = rng.choice(btasks)
+                t["after_fn"] = []
+                t["after_expr"] = rng.choice(["t1_ or", "(", "x ! y"])
+                bop["bad_expr"] = True
+            elif kind == "self" and with_prod:
+                a = rng.choice(with_prod)
+                a["deps"] = a["deps"] + [a["prods"][0]]
+        ops.append(bop)
         builds += 1
     return {"idx": idx, "root": root, "ops": ops, "sources": sources}
 
